@@ -906,7 +906,13 @@ impl Runner {
                 // current file (must be well-formed) + the queued events of version k appended
                 let cur = std::fs::read(st.join("state.json")).ok().and_then(|b| serde_json::from_slice::<serde_json::Value>(&b).ok());
                 let old = self.sj_hist.get(*k).and_then(|o| o.as_ref()).and_then(|b| serde_json::from_slice::<serde_json::Value>(b).ok());
-                if let (Some(mut cur), Some(old)) = (cur, old) {
+                // only events of the SAME release are merged in: a queue mixing releases is not something an earlier
+                // version of this file could have held (the properties' hypothesis on stale files)
+                let same_release = match (&cur, &old) {
+                    (Some(c), Some(o)) => c.get("release_version") == o.get("release_version"),
+                    _ => false,
+                };
+                if let (true, Some(mut cur), Some(old)) = (same_release, cur, old) {
                     let extra: Vec<serde_json::Value> = old.get("queued_events").and_then(|v| v.as_array()).cloned().unwrap_or_default();
                     if let Some(q) = cur.get_mut("queued_events").and_then(|v| v.as_array_mut()) {
                         // (current ++ old) twice: long enough to exceed the batch of three, and not periodic in a way
